@@ -118,7 +118,9 @@ def _run_units(units, repo, verif, work, tier, jobs=None):
     env = dict(os.environ)
     env['CARGO_NET_OFFLINE'] = 'true'
     env['CARGO_TARGET_DIR'] = os.path.join(work, 'kani-target')
-    timeout = max(h.get('timeout', 300) for _, h in live) + 240
+    # one cargo-kani invocation runs all harnesses on `jobs` workers: allow the longest harness plus the queueing time
+    tmo = [h.get('timeout', 300) for _, h in live]
+    timeout = max(tmo) + (sum(tmo) // max(1, jobs) if len(tmo) > jobs else 0) + 240
     timeout = int(os.environ.get('VERIF_KANI_TIMEOUT', timeout))
     p = subprocess.Popen(cmd, cwd=scratch, env=env, stdout=subprocess.PIPE, stderr=subprocess.STDOUT, text=True, start_new_session=True)
     timed_out = False
@@ -292,8 +294,8 @@ def parse_kani(out):
         mc = re.search(r'\*\* (\d+) of (\d+) cover properties satisfied', body)
         tm = re.search(r'Verification Time: ([\d.]+)s', body)
         failed = []
-        for fm in re.finditer(r'Failed Checks: (.*?)\n\s*File: "([^"]*)", line (\d+), in ([^\n]*)', body):
-            failed.append({'desc': fm.group(1).strip(), 'file': fm.group(2), 'line': int(fm.group(3)), 'fn': fm.group(4).strip(), 'loc': '%s:%s' % (fm.group(2), fm.group(3))})
+        for fm in re.finditer(r'Failed Checks: (.*?)\n\s*File: "([^"]*)", line (\d+), in ([^\n]*)', body, re.S):
+            failed.append({'desc': re.sub(r'\s+', ' ', fm.group(1)).strip(), 'file': fm.group(2), 'line': int(fm.group(3)), 'fn': fm.group(4).strip(), 'loc': '%s:%s' % (fm.group(2), fm.group(3))})
         res[name] = {'ok': ok and nfail == 0, 'total': total, 'nfail': nfail,
                      'covers_sat': int(mc.group(1)) if mc else 0, 'covers_total': int(mc.group(2)) if mc else 0,
                      'time': float(tm.group(1)) if tm else 0.0, 'failed': failed, 'raw': body}
